@@ -225,19 +225,57 @@ class Exits:
         return not (free & rets)
 
 
+_SAME_TRUTH = re.compile(r"^core::bool::then_some$|^core::bool::then$|bool::then_some$|bool::then$|"
+                         r"^core::option::Option::(ok_or|ok_or_else|map|as_ref|as_mut|as_deref|cloned|copied|inspect|is_some|filter_never)$|"
+                         r"^core::result::Result::(map|map_err|as_ref|inspect|inspect_err|ok|is_ok)$|Try::branch$")
+_NEG_TRUTH = re.compile(r"^core::option::Option::is_none$|^core::result::Result::is_err$")
+
+
+def _discr_of(ty, truth):
+    ty = re.sub(r"^&(mut )?", "", ty)
+    if ty.startswith("core::option::Option<"):
+        return 1 if truth else 0
+    if ty.startswith("core::result::Result<") or ty.startswith("core::ops::control_flow::ControlFlow<"):
+        return 0 if truth else 1
+    return None
+
+
 def bool_flow(f, bb, si, env, avoid=(), stop_at_reject=True):
-    """Path-sensitive walk from statement position (bb, si) with known boolean locals `env` ({local: bool}).  Boolean
-    temporaries are propagated (`x = const`, `x = !y`, `x = y`) and a switch on a known boolean follows only the feasible edge,
-    so `let ok = a && b; if !ok { .. }` is read like `if !(a && b) { .. }`.
-    -> {"ok": first (bb, si) of an assignment that may carry Ok reached, or None,
-        "ret": a return was reached without passing a definite rejection, "blocks": blocks entered, "positions": set}"""
+    """Path-sensitive walk from statement position (bb, si) with known facts `env`.
+    Keys: a local, or ("some", local) for the payload of an Option local.  Values: True/False — the value of a bool, or
+    "is Some / is Ok / is Continue" for Option / Result / ControlFlow locals.  Facts are propagated through copies, `!`, refs,
+    Some/None/Ok/Err aggregates, discriminant reads and the truth-preserving std calls (bool::then_some, Option::ok_or / map,
+    Result::map_err, `?`, is_some / is_ok / is_none / is_err); a switch on a known value follows only the feasible edge, so
+    `let ok = a && b; if !ok {..}`, `ok.then_some(()).ok_or(e)` and `match v { true => .. }` are all read alike.
+    -> {"ok": first (bb, si) of an assignment that may carry Ok reached (None if none), "ret": a return was reached without passing
+        a definite rejection, "ret_vals": values of the return place at those returns, "blocks", "positions"}"""
     ex = exits(f)
     avoid = set(avoid)
     seen = set()
     blocks = set()
     positions = set()
-    out = {"ok": None, "ret": False, "blocks": blocks, "positions": positions}
-    work = [(bb, si, tuple(sorted(env.items())))]
+    out = {"ok": None, "ret": False, "blocks": blocks, "positions": positions, "ret_vals": set()}
+    work = [(bb, si, frozenset(env.items()))]
+
+    def val_of_operand(o, e):
+        c = o.get("k")
+        if c is not None:
+            if c.get("ty") == "bool" and "v" in c:
+                return bool(int(c["v"]))
+            return None
+        p = op_place(o)
+        if p is None:
+            return None
+        if isinstance(p, int):
+            return e.get(p)
+        proj = pl_proj(p)
+        kinds = [x[0] for x in proj]
+        if kinds == ["downcast", "field"] and proj[0][2] == "Some":
+            return e.get(("some", pl_local(p)))
+        if kinds == ["deref"]:
+            return e.get(pl_local(p))
+        return None
+
     while work:
         b, i0, envt = work.pop()
         if (b, i0, envt) in seen or len(seen) > 20000:
@@ -266,21 +304,44 @@ def bool_flow(f, bb, si, env, avoid=(), stop_at_reject=True):
                 continue
             rv = st[2]
             val = None
-            if rv["k"] == "use":
-                c = rv["x"].get("k")
+            payload = None
+            k = rv["k"]
+            if k in ("use", "cast"):
+                val = val_of_operand(rv["x"], e)
                 p = op_place(rv["x"])
-                if c is not None and c.get("ty") == "bool" and "v" in c:
-                    val = bool(int(c["v"]))
-                elif p is not None and isinstance(p, int) and p in e:
-                    val = e[p]
-            elif rv["k"] == "un" and rv.get("op") == "Not":
-                p = op_place(rv["x"])
-                if p is not None and isinstance(p, int) and p in e:
-                    val = not e[p]
+                if p is not None and isinstance(p, int):
+                    payload = e.get(("some", p))
+            elif k == "un" and rv.get("op") == "Not":
+                v = val_of_operand(rv["x"], e)
+                if isinstance(v, bool):
+                    val = not v
+            elif k in ("ref", "rawptr"):
+                p = rv["p"]
+                if isinstance(p, int):
+                    val = e.get(p)
+                    payload = e.get(("some", p))
+                elif [x[0] for x in pl_proj(p)] == ["deref"]:
+                    val = e.get(pl_local(p))
+                    payload = e.get(("some", pl_local(p)))
+            elif k == "discr":
+                p = rv["p"]
+                l = pl_local(p)
+                if (isinstance(p, int) or [x[0] for x in pl_proj(p)] == ["deref"]) and isinstance(e.get(l), bool):
+                    n = _discr_of(rv.get("pty", "") or f.local_ty(l), e[l])
+                    if n is not None:
+                        val = ("d", n)
+            elif k == "agg" and rv.get("ak") == "adt" and rv.get("adt") in ("core::option::Option", RESULT):
+                val = rv.get("variant") in ("Some", "Ok")
+                if rv.get("variant") == "Some" and rv["fields"]:
+                    payload = val_of_operand(rv["fields"][0], e)
             if val is None:
                 e.pop(dst, None)
             else:
                 e[dst] = val
+            if payload is None:
+                e.pop(("some", dst), None)
+            else:
+                e[("some", dst)] = payload
         if dead:
             continue
         t = blk["term"]
@@ -288,35 +349,55 @@ def bool_flow(f, bb, si, env, avoid=(), stop_at_reject=True):
         k = t["k"]
         if k == "return":
             out["ret"] = True
+            out["ret_vals"].add(e.get(0))
             continue
         if k in ("call", "tailcall"):
             positions.add((b, n))
             if (b, n) in ex.reject_pos and stop_at_reject:
                 continue
-            if (b, n) in ex.ok_pos and out["ok"] is None:
-                out["ok"] = (b, n)
             d = t["dest"]
-            e.pop(pl_local(d), None)
+            name = callee(t)
+            val = None
+            if t["args"]:
+                a0 = val_of_operand(t["args"][0], e)
+                if isinstance(a0, bool):
+                    if _SAME_TRUTH.search(name):
+                        val = a0
+                    elif _NEG_TRUTH.search(name):
+                        val = not a0
+            if (b, n) in ex.ok_pos:
+                if val is False and stop_at_reject and _discr_of(f.local_ty(pl_local(d)), True) is not None and f.local_ty(pl_local(d)).startswith("core::result"):
+                    continue                               # the value handed to the return place is known to be an Err
+                if out["ok"] is None:
+                    out["ok"] = (b, n)
+            dl = pl_local(d)
+            e.pop(("some", dl), None)
+            if val is None or not isinstance(d, int):
+                e.pop(dl, None)
+            else:
+                e[dl] = val
             if t.get("t") is not None:
-                work.append((t["t"], 0, tuple(sorted(e.items()))))
+                work.append((t["t"], 0, frozenset(e.items())))
             continue
         if k == "switch":
-            p = op_place(t["d"])
-            known = e.get(p) if (p is not None and isinstance(p, int)) else None
-            if known is not None and t.get("dty") == "bool":
+            known = val_of_operand(t["d"], e)
+            if isinstance(known, bool) and t.get("dty") == "bool":
                 zero = [x for v, x in t["ts"] if int(v) == 0]
                 if known:
                     nz = [x for v, x in t["ts"] if int(v) != 0]
                     tgt = nz[0] if nz else t["o"]
                 else:
                     tgt = zero[0] if zero else t["o"]
-                work.append((tgt, 0, tuple(sorted(e.items()))))
+                work.append((tgt, 0, frozenset(e.items())))
+            elif isinstance(known, tuple) and known and known[0] == "d":
+                tg = [x for v, x in t["ts"] if int(v) == known[1]]
+                work.append((tg[0] if tg else t["o"], 0, frozenset(e.items())))
             else:
                 for x in f.succ(b):
-                    work.append((x, 0, tuple(sorted(e.items()))))
+                    work.append((x, 0, frozenset(e.items())))
             continue
         for x in f.succ(b):
-            work.append((x, 0, tuple(sorted(e.items()))))
+            work.append((x, 0, frozenset(e.items())))
     return out
 
 
